@@ -161,6 +161,6 @@ def main():
     json.dump(m, open(os.path.join(ROOT, "MANIFEST.json"), "w"), indent=1)
     print("wrote MANIFEST.json:", len(checks), "checks,", len(na), "not claimed")
 
-HOOK_COMMITS = ["1cacaa2", "a146744", "76ca8b1", "740a190"]
+HOOK_COMMITS = ["1cacaa2", "a146744", "76ca8b1", "740a190", "3924a95"]
 if __name__ == "__main__":
     main()
